@@ -173,7 +173,7 @@ def shard(shard_no, nshards, seed, tier, extra):
                 gi["features"] = set(gi["features"]) | {"long-code"}
         req = {"op": "analyze", "code": code.hex(), "direct_vm": True, "observe": ["states"], "annotate": True,
                "mem_offsets": ["0x%x" % o for o in sorted(g.mem_offsets)], "state_cap": 64,
-               "cfg": {"permissive": True}}
+               "cfg": {"permissive": True, "vsize": 100000000}}
         resp = d.call(req, timeout=120)
         judge(res, code, gi, resp)
         if i < 2:
@@ -193,7 +193,9 @@ def run(tier, seed, t0):
         "bytecode; non-trivial = more than one path or >= 4 opcode families",
         t0, ["vlib/evmref.py and vlib/treeeval.py are correct EVM semantics",
              "a Modulo node created by ADDMOD/MULMOD denotes the wide operation (the VM's encoding of those opcodes)",
-             "an SLoad node denotes the loaded value; initial storage and memory are zero"],
+             "an SLoad node denotes the loaded value; initial storage and memory are zero",
+             "run with a value-size limit of 10^8 nodes: the replacement of over-large values by opaque ones is C18's "
+             "subject and would otherwise make a constant unevaluable"],
         min_judged=200)
 
 
@@ -203,7 +205,7 @@ def replay(path):
     code = bytes.fromhex(case["code"])
     d = common.Driver("rel", shim=False)
     req = {"op": "analyze", "code": code.hex(), "direct_vm": True, "observe": ["states"], "annotate": True,
-           "mem_offsets": ["0x%x" % o for o in case["mem_offsets"]], "state_cap": 64, "cfg": {"permissive": True}}
+           "mem_offsets": ["0x%x" % o for o in case["mem_offsets"]], "state_cap": 64, "cfg": {"permissive": True, "vsize": 100000000}}
     resp = d.call(req)
     d.stop()
     judge(res, code, {"mem_offsets": set(case["mem_offsets"]), "features": set()}, resp)
